@@ -7,6 +7,7 @@ import (
 	"fmt"
 	"reflect"
 	"runtime"
+	"runtime/debug"
 	"strings"
 	"sync"
 	"sync/atomic"
@@ -26,7 +27,7 @@ func init() {
 	core.Register(&core.Property{
 		ID:          "C09",
 		Rule:        "every decoding entry point (frame binary/base64, MACPayload/FHDR/FCtrl/MHDR, FOpts and FRMPayload MAC decode in both directions, decrypt-then-decode with random keys, join-accept decrypt, CFList and its two payloads, join/rejoin payloads, MACCommand for every CID and every MAC payload type, text/Scan of the identifier types and DLSettings, Command/Commands of the four application-layer packages and every application-layer payload type, json.Unmarshal into the backend payload structs and scalar types) is called under recover() on byte strings of length 0..512: uniform random, 0x00/0xFF/0x80 patterns, mutated valid encodings, length-field attacks with every truncation, and for JSON valid documents with mutated scalars, wrong types, deep nesting and huge numbers. The input is a sub-slice of a canary-filled buffer that is compared afterwards. Hangs are caught by a per-case watchdog (a case that does not finish is re-run alone; only a second miss is a violation). Distinct = (entry point, input kind, length class, accepted?).",
-		Assumptions: []string{"'time linear in the input' is restated as bounded progress: every call on <= 512 bytes returns (observed maximum per entry point is recorded in the evidence)"},
+		Assumptions: []string{"'time linear in the input' is observed in two ways: every call on <= 512 bytes returns (per-case watchdog; slowest call recorded in the evidence), and for every entry point the allocation and the fastest-of-three time on 128 KiB inputs are compared with those on 4 KiB inputs of the same family (32x; quadratic work would give 1024x): more than 256x the allocation, or more than 400x the time in three independent repeats, is super-linear; a ratio exceeded only once is timing noise and not judged"},
 		MinEvals:    1000,
 		Run:         runC09,
 	})
@@ -480,6 +481,150 @@ func c09Grid(c *core.Ctx, entries []c09Entry) {
 	}
 }
 
+// c09Scaling: "in time linear in the input". Each entry point is called on inputs
+// of 4 KiB and of 128 KiB (32x) from a few input families that keep decoders
+// busy (long runs of one-byte commands, valid headers followed by filler, long
+// base64 / hex / JSON strings, deep JSON nesting). Two observations per pair:
+// bytes allocated (runtime.MemStats.TotalAlloc, deterministic for a
+// single-goroutine call) and the fastest of three timings (collector off). Linear
+// work gives a ratio of about 32 (up to ~90 observed: caches, allocator), quadratic
+// work about 1024. Allocation beyond 256x, or time beyond 400x in every one of
+// three independent repeats, is reported; a time ratio that exceeds the bound only in some repeats is
+// noted as inconclusive timing noise, not as a violation.
+func c09Scaling(c *core.Ctx, entries []c09Entry) {
+	const small, large = 4 << 10, 128 << 10
+	rep := func(unit string, n int) []byte { return bytes.Repeat([]byte(unit), n/len(unit)+1)[:n] }
+	type family struct {
+		name string
+		gen  func(n int) []byte
+	}
+	bin := []family{
+		{"zeros", func(n int) []byte { return make([]byte, n) }},
+		{"run-of-0x02", func(n int) []byte { return rep("\x02", n) }},
+		{"run-of-0xff", func(n int) []byte { return rep("\xff", n) }},
+		{"data-frame-with-long-payload", func(n int) []byte { return append([]byte{0x40, 1, 2, 3, 4, 0x00, 1, 0, 1}, rep("\x03\x07", n-9)...) }},
+		{"port0-frame-with-long-mac-stream", func(n int) []byte { return append([]byte{0x40, 1, 2, 3, 4, 0x00, 1, 0, 0}, rep("\x02", n-9)...) }},
+		{"app-commands", func(n int) []byte { return rep("\x00\x01\x02\x03", n) }},
+	}
+	txt := []family{
+		{"base64-A", func(n int) []byte { return rep("AAAA", n) }},
+		{"base64-data-frame", func(n int) []byte {
+			return []byte(base64.StdEncoding.EncodeToString(append([]byte{0x40, 1, 2, 3, 4, 0x00, 1, 0, 0}, rep("\x02", n*3/4-9)...)))
+		}},
+		{"hex", func(n int) []byte { return rep("ab", n) }},
+		{"0x-hex", func(n int) []byte { return append([]byte("0x"), rep("ab", n-2)...) }},
+		{"digits", func(n int) []byte { return rep("1", n) }},
+	}
+	js := []family{
+		{"long-string", func(n int) []byte { return append(append([]byte{'"'}, rep("ab", n-2)...), '"') }},
+		{"deep-arrays", func(n int) []byte { return rep("[", n) }},
+		{"deep-objects", func(n int) []byte { return rep(`{"a":`, n) }},
+		{"long-number", func(n int) []byte { return rep("1", n) }},
+		{"object-with-long-phypayload", func(n int) []byte {
+			return append(append([]byte(`{"PHYPayload":"`), rep("ab", n-18)...), '"', '}')
+		}},
+		{"long-array-of-strings", func(n int) []byte { return append(append([]byte{'['}, rep(`"ab",`, n-6)...), []byte(`"ab"]`)...) }},
+	}
+	measure := func(e c09Entry, r *core.RNG, in []byte) (alloc uint64, best time.Duration, panicked string) {
+		var m0, m1 runtime.MemStats
+		best = time.Hour
+		// the collector's work grows with the live heap a call builds up, which is not the
+		// decoder's doing: collect before, keep it off during the timed call
+		defer debug.SetGCPercent(debug.SetGCPercent(-1))
+		for k := 0; k < 3; k++ {
+			arg := append(make([]byte, 0, len(in)), in...)
+			runtime.GC()
+			runtime.ReadMemStats(&m0)
+			t0 := time.Now()
+			p, msg := core.Guard(func() { e.call(r, arg) })
+			d := time.Since(t0)
+			runtime.ReadMemStats(&m1)
+			if p {
+				return 0, 0, msg
+			}
+			if d < best {
+				best = d
+			}
+			if a := m1.TotalAlloc - m0.TotalAlloc; k == 0 || a < alloc {
+				alloc = a
+			}
+		}
+		return alloc, best, ""
+	}
+	for ei, e := range entries {
+		if !c.Mine("scaling", int64(ei)) {
+			continue
+		}
+		r := c.RNG("scaling", int64(ei))
+		fams := bin
+		if e.json {
+			fams = js
+		} else if e.text {
+			fams = txt
+		}
+		for _, f := range fams {
+			a1, t1, p1 := measure(e, r, f.gen(small))
+			a2, t2, p2 := measure(e, r, f.gen(large))
+			c.Eval(6)
+			if p1 != "" || p2 != "" {
+				c.Violate("C09|panic|"+e.name+"|"+core.PanicSite(p1+p2), "%s panics on a long %s input: %s", e.name, f.name, short(p1+p2, 400))
+				continue
+			}
+			if a2 > 256*maxU64(a1, 32<<10) {
+				c.Violate("C09|superlinear-allocation|"+e.name, "%s on %s input: %d bytes allocated for %d input bytes but %d for %d (x%d for x32 input)", e.name, f.name, a1, small, a2, large, a2/maxU64(a1, 1))
+			}
+			slow := func(t1, t2 time.Duration) bool { return t2 > 400*maxDur(t1, 5*time.Microsecond) }
+			if slow(t1, t2) {
+				again := 0
+				for k := 0; k < 2; k++ {
+					_, u1, _ := measure(e, r, f.gen(small))
+					_, u2, _ := measure(e, r, f.gen(large))
+					if slow(u1, u2) {
+						again++
+					}
+				}
+				if again == 2 {
+					c.Violate("C09|superlinear-time|"+e.name, "%s on %s input: fastest of three calls takes %v for %d bytes and %v for %d bytes (x%d for x32 input), in three independent repeats", e.name, f.name, t1, small, t2, large, int64(t2/maxDur(t1, 1)))
+				} else {
+					c.Note(fmt.Sprintf("scaling: %s on %s input exceeded the time ratio once (%v -> %v) but not in the repeats: timing noise, not judged", e.name, f.name, t1, t2))
+				}
+			}
+			if us := t2.Microseconds(); us > c.Res().Counters["max.slowest-128KiB-call-microseconds"] {
+				c.Res().Counters["max.slowest-128KiB-call-microseconds"] = us
+			}
+			if t1 >= 5*time.Microsecond {
+				if q := int64(t2 / t1); q > c.Res().Counters["max.time-ratio-for-32x-input(base>=5us)"] {
+					c.Res().Counters["max.time-ratio-for-32x-input(base>=5us)"] = q
+					if q > 150 {
+						c.Note(fmt.Sprintf("scaling: largest time ratio so far %d: %s on %s input (%v -> %v)", q, e.name, f.name, t1, t2))
+					}
+				}
+			}
+			if a1 > 0 {
+				if q := int64(a2 / maxU64(a1, 32<<10)); q > c.Res().Counters["max.allocation-ratio-for-32x-input"] {
+					c.Res().Counters["max.allocation-ratio-for-32x-input"] = q
+				}
+			}
+			c.Shape("scaling", e.name, f.name)
+			c.Count("scaling.pairs-measured", 1)
+		}
+	}
+}
+
+func maxDur(a, b time.Duration) time.Duration {
+	if a > b {
+		return a
+	}
+	return b
+}
+
+func maxU64(a, b uint64) uint64 {
+	if a > b {
+		return a
+	}
+	return b
+}
+
 // c09ConcurrentRegistry: "never hangs" includes decoding while another goroutine
 // registers a proprietary MAC command (the registry is the one lock decoders
 // take). A deadlock leaves the case stuck; the worker watchdog and the parent's
@@ -549,6 +694,7 @@ func runC09(c *core.Ctx) {
 	c09FirstCalls(c)
 	entries := c09Entries()
 	c09Grid(c, entries)
+	c09Scaling(c, entries)
 	c09ConcurrentRegistry(c)
 	per := c.N(3000, 1500000)
 	for ei, e := range entries {
